@@ -27,8 +27,10 @@ impl<const T: JoinType> MergeJoinExecutor<T> {
 
         loop {
             match (&left_group, &right_group) {
-                // cross join if left key == right key
-                (Some((lkey, lchunk)), Some((rkey, rchunk))) if lkey == rkey => {
+                // cross join if left key == right key (a NULL key equals nothing)
+                (Some((lkey, lchunk)), Some((rkey, rchunk)))
+                    if lkey == rkey && !lkey.iter().any(|k| k.is_null()) =>
+                {
                     for left_row in lchunk {
                         for right_row in rchunk {
                             let values = left_row.iter().chain(right_row.iter()).cloned();
@@ -41,8 +43,9 @@ impl<const T: JoinType> MergeJoinExecutor<T> {
                     right_group = right_groups.next().await.transpose()?;
                 }
                 // left join if left key < right key or right is finished
+                // (or both keys are the same NULL key: the right group is handled next)
                 (Some((lkey, lchunk)), _)
-                    if right_group.as_ref().is_none_or(|(rkey, _)| lkey < rkey) =>
+                    if right_group.as_ref().is_none_or(|(rkey, _)| lkey <= rkey) =>
                 {
                     if T == JoinType::LeftOuter || T == JoinType::FullOuter {
                         for left_row in lchunk {
